@@ -168,6 +168,14 @@ func (w *Worker) callValue(fnv Value, args []Value) Value {
 		return w.callFunction(fn.Fn, args, fn.Env)
 	case *ssa.Builtin:
 		return w.callBuiltin(fn, args)
+	case rtypeMethod:
+		switch fn.name {
+		case "Size":
+			return w.tt.BV(64, uint64(w.sizeof(fn.t)))
+		case "String", "Name":
+			return StrV{S: fn.t.String()}
+		}
+		panic(unsupported("reflect.Type method %s", fn.name))
 	case nil:
 		w.runtimePanic("call of nil function")
 	}
@@ -339,6 +347,9 @@ func (fr *frame) prepareCall(call *ssa.CallCommon) (Value, []Value) {
 		recv, ok := v.(IfaceV)
 		if !ok || recv.T == nil {
 			w.runtimePanic("method value: interface conversion: interface is nil")
+		}
+		if recv.T == rtypeModelType {
+			return rtypeMethod{call.Method.Name(), recv.V.(rtypeHolder).t}, nil
 		}
 		m := w.lookupMethod(recv.T, call.Method)
 		if m == nil {
@@ -557,6 +568,14 @@ func (w *Worker) runtimeErrorValue(msg string) Value {
 	// modelled as a string-typed interface value carrying the message
 	return IfaceV{T: runtimeErrorType, V: StrV{S: "runtime error: " + msg}}
 }
+
+type rtypeHolder struct{ t types.Type }
+type rtypeMethod struct {
+	name string
+	t    types.Type
+}
+
+var rtypeModelType = types.NewNamed(types.NewTypeName(token.NoPos, nil, "reflect.Type(model)", nil), types.Typ[types.Int], nil)
 
 var runtimeErrorType = types.NewNamed(types.NewTypeName(token.NoPos, nil, "runtime.Error(model)", nil), types.Typ[types.String], nil)
 
